@@ -430,7 +430,22 @@ impl Prop for C03 {
             for _ in 0..d {
                 p.push((r.f64() - 0.5) * 20.0 * scale.sqrt().max(1e-3));
             }
-            let mut cov = if visit % 3 == 1 { gen_structured(&mut r, d, scale) } else { gen_spd(&mut r, d, scale) };
+            // the structured deep visit uses a strongly correlated AR(1) covariance rho^|i-j| (every entry of
+            // the Cholesky factor matters there); the other structured visits: diagonal / equicorrelated / cancelling
+            let mut cov = if visit + 1 == clean_visits {
+                let rho = *r.pick(&[0.9, -0.7, 0.5, 0.97]);
+                let mut c = vec![0.0; d * d];
+                for i in 0..d {
+                    for j in 0..d {
+                        c[i * d + j] = scale * f64::powi(rho, (i as i32 - j as i32).abs());
+                    }
+                }
+                c
+            } else if visit % 3 == 1 {
+                gen_structured(&mut r, d, scale)
+            } else {
+                gen_spd(&mut r, d, scale)
+            };
             if cholesky(&cov, d).is_none() {
                 cov = gen_spd(&mut r, d, scale);
             }
